@@ -10,3 +10,29 @@
 -/
 import IvpModel.Proofs.CtlRk
 import IvpModel.Proofs.SolOutPhases
+import IvpModel.Proofs.DensePassive
+
+/-!
+  * `c12_dense_flag_passive` (added in session 3c): at the solver interface, for a kernel whose state update and right-hand-side
+    calls do not depend on the `dense_output` flag and an observer that does not read the interpolant, the run with the flag off
+    is the run with the flag on, up to the interpolant samples in the log; DOPRI5's kernel is such a kernel
+    (`c12_dense_flag_passive_dopri5`).  DOP853's is not — it evaluates its three extra stages only on request — which is why
+    `solve_ivp` always runs it with the flag on (static fact).
+-/
+noncomputable section
+variable {K : Type} [Field K] [LinearOrder K] [IsStrictOrderedRing K] [SqrtPow K]
+
+theorem c12_dense_flag_passive {σ : Type} {n : Nat} (P : Ctl.HParams K n) (Kn : Ctl.HKernel K n) (hK : Ctl.DensePassive Kn) (f : Ctl.Rhs K n)
+    (ob : Ctl.Obs σ K n) (hob : Ctl.IgnoresIp ob) (obs0 : σ) (x0 : K) (y0 : Ctl.Vec K n) (firstStep : Option K)
+    (hinit : Ctl.Rhs K n → Ctl.Vec K n → K × Array (K × Ctl.Vec K n)) (fo hl : K) (fuel : Nat) :
+    (Ctl.hSolve (Ctl.setDense P false) Kn f ob obs0 x0 y0 firstStep hinit fo hl fuel).map Ctl.eResult
+      = (Ctl.hSolve (Ctl.setDense P true) Kn f ob obs0 x0 y0 firstStep hinit fo hl fuel).map Ctl.eResult :=
+  Ctl.hSolve_dense_passive P Kn hK f ob hob obs0 x0 y0 firstStep hinit fo hl fuel
+
+theorem c12_dense_flag_passive_dopri5 {σ : Type} {n : Nat} (P : Ctl.HParams K n) (atol rtol : Ctl.Vec K n) (f : Ctl.Rhs K n)
+    (ob : Ctl.Obs σ K n) (hob : Ctl.IgnoresIp ob) (obs0 : σ) (x0 : K) (y0 : Ctl.Vec K n) (firstStep : Option K)
+    (hinit : Ctl.Rhs K n → Ctl.Vec K n → K × Array (K × Ctl.Vec K n)) (fo hl : K) (fuel : Nat) :
+    (Ctl.hSolve (Ctl.setDense P false) (Ctl.dopri5Kernel atol rtol) f ob obs0 x0 y0 firstStep hinit fo hl fuel).map Ctl.eResult
+      = (Ctl.hSolve (Ctl.setDense P true) (Ctl.dopri5Kernel atol rtol) f ob obs0 x0 y0 firstStep hinit fo hl fuel).map Ctl.eResult :=
+  Ctl.hSolve_dense_passive P _ (Ctl.dopri5_densePassive atol rtol) f ob hob obs0 x0 y0 firstStep hinit fo hl fuel
+end
